@@ -186,6 +186,15 @@ pub mod adapt {
         }
     }
 
+    // ---- Vec<u8> as a sink (std: appends, never fails) ---------------------------------------------
+    impl<A: core::alloc::Allocator> crate::WriteSpecImpl for Vec<u8, A> {
+        open spec fn written(&self) -> Seq<u8> { self@ }
+        open spec fn infallible(&self) -> bool { true }
+        open spec fn flushed(&self) -> nat { self@.len() }
+        #[verifier::prophetic]
+        open spec fn snk_eq(&self, o: &Self) -> bool { o@.is_prefix_of(self@) }
+    }
+
     // ---- `&[u8]` as a reader (std: the slice shrinks as it is read) --------------------------------
     impl<'a> crate::ReadSpecImpl for &'a [u8] {
         open spec fn remaining(&self) -> Seq<u8> { (*self)@ }
